@@ -68,6 +68,9 @@ class RuleResult:
 
             raise AnalysisError(f"{rule}: only {n} instance(s) of {what} found, expected at least {minimum} (anchor vanished or idiom not recognised)")
 
+    def reindex(self) -> None:
+        self._index = {o.key: o for o in self.obs}
+
     @property
     def violations(self) -> List[Ob]:
         return [o for o in self.obs if not o.ok]
